@@ -1,5 +1,5 @@
 target('c26_whitelist', 'engines/comp/c26_whitelist.cpp', extra_src=['$REPO/bluetoe/utility/address.cpp'],
-       quick=dict(cases=60000, size=120), thorough=dict(cases=1500000, size=200))
+       quick=dict(cases=300000, size=120), thorough=dict(cases=1500000, size=200))
 prop('C26', ['c26_whitelist'], 'comp',
      rule='rapidcheck picks one of 20 instantiated configurations (white_list<N>, N=1..8, over a radio without hardware list = software '
           'variant; N=5,8 over a radio whose list of 4 is too small = software variant that must not touch the radio; N=1..8 over a '
